@@ -869,6 +869,9 @@ func init() {
 		sa, sb, sc := func(p *M9) *M9a { return &p.A }, func(p *M9) *M9b { return &p.B }, func(p *M9) *M9c { return &p.c }
 		sd, se, sf := func(p *M9) *M9d { return &p.D }, func(p *M9) *M9e { return &p.E }, func(p *M9) *M9f { return &p.F }
 		sg, sh, si := func(p *M9) *M9g { return &p.g }, func(p *M9) *M9h { return &p.H }, func(p *M9) *M9i { return &p.I }
+		if c.Is("C02") {
+			m9TooFew(c)
+		}
 		if c.Is("C01") {
 			Derive(c, "ForProduct9[M9, ...]() by type", func() {
 				a, b, cc, d, e, f, g, h, i := optics.ForProduct9[M9, M9a, M9b, M9c, M9d, M9e, M9f, M9g, M9h, M9i]()
